@@ -286,6 +286,14 @@ def mk_int(op, a, b):
     elif op in ("shl", "shr"):
         if isinstance(tb, int) and tb == 0: return wrap(ta)
         if isinstance(ta, int) and ta == 0: return 0
+        if isinstance(tb, int) and tb > 4096:
+            # never materialise 2**tb: a value with static bounds below 2**4096 is shifted out entirely
+            lo, hi = bounds(ta, BOUNDS_MEMO)
+            if op == "shr" and lo is not None and hi is not None and abs(lo).bit_length() <= 4096 and hi.bit_length() <= 4096:
+                if lo >= 0:
+                    return 0
+                return Ite(mk_cmp("lt", wrap(ta), 0), -1, 0)
+            raise EncodingUnsupported("shift by the constant %d of a value without small static bounds" % tb)
     elif op in ("or", "xor"):
         if isinstance(tb, int) and tb == 0: return wrap(ta)
         if isinstance(ta, int) and ta == 0: return wrap(tb)
